@@ -10,9 +10,8 @@
 From RN Require Export SM.SnapshotTypes Gen.SnapshotTables.
 From Coq Require Export NArith.
 
-(** a snapshot record (SnapshotRecordDto); the key is compared as a string by load_snapshot
-    (String::from_utf8_lossy(&record.key)) *)
-Record record := mkRec { rtree : string; rkey : string; rval : list N }.
+(** a snapshot record (SnapshotRecordDto): tree name, key and value as byte strings *)
+Record record := mkRec { rtree : list N; rkey : list N; rval : list N }.
 
 Section Node.
   Variable S : Type.      (* component state *)
